@@ -167,3 +167,14 @@ Example C03_end_to_end_premises_satisfiable :
   Peel.peel_inputs_ok xE xPa xSa [1; 2; 3; 4]%N = true /\ PeelProofs1.nonneg xE xf /\ PeelProofs1.conserving xE xf.
 Proof. exact e2e_premises_satisfiable. Qed.
 Print Assumptions C03_end_to_end_premises_satisfiable.
+
+(* (10) soundness of the width lower bound at the level of decompositions (AntichainBound.v): pairwise incompatible non-ignored
+   edges with positive flow force as many paths; with (6)/(8) the k-model is infeasible for every smaller k *)
+From FP Require Import AntichainBound.
+Theorem C03_decomposition_has_at_least_antichain_many_paths :
+  forall (I : kfd_inst) (A' : list PathEnc.edge) (P : N -> list node) (w : N -> Q),
+  NoDup A' -> incompatible_edges A' ->
+  (forall e, In e A' -> In e (g_edges (p_graph (f_base I))) /\ mem_edge e (f_ignore I) = false /\ (0 < lookup_q e (f_flow I) 0)%Q) ->
+  decomposition I P w -> (length A' <= p_k (f_base I))%nat.
+Proof. exact decomposition_needs_antichain_many_paths. Qed.
+Print Assumptions C03_decomposition_has_at_least_antichain_many_paths.
